@@ -140,6 +140,9 @@ class C13(Prop):
         'text wrappers (TexText) record no position themselves; the token '
         'they wrap does, and that is what the navigation API hands out',
     )
+    probes = ('reach',)
+    probed_every = 10
+    reach_required = ['category.categorize', 'utils.Token.__add__', 'utils.Token.__radd__', 'utils.Token.__getitem__', 'utils.Token.lstrip', 'utils.Token.rstrip', 'utils.CharToLineOffset.__call__', 'data.TexNode.search_regex', 'data.TexNode.char_pos_to_line']
     min_nontrivial = 1000
     budget_s = {'quick': 240, 'thorough': 3000}
     exhaustive = {
